@@ -1,5 +1,5 @@
 """C01 -- constant-product pool: solvent, LP share never loses value (structural part)."""
-from .poolvalue import (check_fee_lookup_same_asset, check_v1_pools, check_v2_v3_pool, check_v4_min_liquidity, check_no_lp_outflow, check_v5_rounding)
+from .poolvalue import (check_raw_balance_single_consumer, check_fee_lookup_same_asset, check_v1_pools, check_v2_v3_pool, check_v4_min_liquidity, check_no_lp_outflow, check_v5_rounding)
 
 EXPLANATION = """
 Structural necessary conditions named in the property's own mechanism list, for terraswap_pair (both pair types share
@@ -20,8 +20,14 @@ C = "terraswap_pair"
 
 def run(ctx):
     model = ctx.model()
+    # the withdraw hook only honours the LP token itself (else a foreign cw20 could burn the locked minimum stake)
+    from .C16 import check_hook_authorisation
+    from .poolvalue import check_direct_withdraw
+    check_direct_withdraw(ctx, model, "C01-V4", "terraswap_pair::contract::execute", r"^terraswap_pair::commands::withdraw_liquidity$", "terraswap_pair::state::PAIR_INFO", ("liquidity_token", "#NativeToken", "denom"))
+    check_hook_authorisation(ctx, model, rule="C01-V4", only={"terraswap_pair"})
     check_v1_pools(ctx, model, C, "C01-V1")
     check_fee_lookup_same_asset(ctx, model, C, "C01-V1")
+    check_raw_balance_single_consumer(ctx, model, C, "C01-V1")
     check_v2_v3_pool(ctx, model, C, "C01-V3")
     check_v4_min_liquidity(ctx, model, "%s::commands::provide_liquidity" % C, "C01-V4")
     check_no_lp_outflow(ctx, model, C, "C01-V4", "liquidity_token")
